@@ -1,5 +1,257 @@
-use crate::common::Opts;
+//! C17 (E2 half): leaf nodes expose the text they consumed.
+
+use crate::c19::R;
+use crate::common::{viol, Opts};
 use pegx::report::Report;
-pub fn run(_o: &Opts) -> Report {
-    Report::default()
+use pest_typed::predefined_node::{CharRange, Insens, NewLineType, Push, Skip, SkipChar, Str, ANY, NEWLINE, PEEK, PEEK_ALL, POP, POP_ALL};
+use pest_typed::tracker::Tracker;
+use pest_typed::{Position, Span, Stack, StringArrayWrapper, StringWrapper, TypedNode};
+use refpeg::enumerate;
+use refpeg::json::J;
+
+macro_rules! sw {
+    ($n:ident, $s:literal) => {
+        #[derive(Clone, Debug, Hash, PartialEq, Eq)]
+        pub struct $n;
+        impl StringWrapper for $n {
+            const CONTENT: &'static str = $s;
+        }
+    };
+}
+sw!(Kw, "abé");
+sw!(Kw2, "Ab1z");
+sw!(Sa, "a");
+#[derive(Clone, Debug, PartialEq)]
+pub struct Needles;
+impl StringArrayWrapper for Needles {
+    const CONTENT: &'static [&'static str] = &["€a", "b"];
+}
+
+fn parse<'i, N: TypedNode<'i, R>>(input: &'i str, init: &'i [&'i str]) -> Option<(usize, N)> {
+    let mut st: Stack<Span<'i>> = Stack::new();
+    for t in init {
+        st.push(Span::new_full(t));
+    }
+    let pos = Position::from_start(input);
+    let mut tr = Tracker::<R>::new(pos);
+    N::try_parse_partial_with(pos, &mut st, &mut tr).map(|(p, n)| (p.pos(), n))
+}
+
+fn bad(rep: &mut Report, what: &str, input: &str, expected: String, actual: String) {
+    rep.violation(viol("C17", "leaf-content", input, what.to_string(), 0, 0, expected, actual, String::new()));
+}
+
+fn range<const A: char, const B: char>(rep: &mut Report, chars: &[char]) {
+    rep.rules += 1;
+    for &c in chars {
+        let s = format!("{}x", c);
+        rep.cases += 1;
+        let r = parse::<CharRange<A, B>>(&s, &[]);
+        let should = A <= c && c <= B;
+        match r {
+            Some((end, node)) => {
+                rep.nontrivial += 1;
+                rep.outcome(format!("{}", c.len_utf8()));
+                if !should || end != c.len_utf8() || node.content != c {
+                    bad(rep, &format!("CharRange<{:?},{:?}>", A, B), &s, format!("content {:?} end {}", c, c.len_utf8()), format!("content {:?} end {}", node.content, end));
+                }
+            }
+            None => {
+                if should {
+                    bad(rep, &format!("CharRange<{:?},{:?}>", A, B), &s, "match".into(), "None".into());
+                }
+            }
+        }
+    }
+}
+
+fn spellings(s: &str) -> Vec<String> {
+    // all 2^k upper/lower spellings of the ASCII letters
+    let chars: Vec<char> = s.chars().collect();
+    let letters: Vec<usize> = chars.iter().enumerate().filter(|(_, c)| c.is_ascii_alphabetic()).map(|(i, _)| i).collect();
+    let mut out = vec![];
+    for mask in 0..(1u32 << letters.len()) {
+        let mut v = chars.clone();
+        for (k, &i) in letters.iter().enumerate() {
+            v[i] = if mask & (1 << k) != 0 { v[i].to_ascii_uppercase() } else { v[i].to_ascii_lowercase() };
+        }
+        out.push(v.into_iter().collect());
+    }
+    out
+}
+
+fn insens<W: StringWrapper>(rep: &mut Report) {
+    rep.rules += 1;
+    for sp in spellings(W::CONTENT) {
+        for tail in ["", "x", "É"] {
+            let s = format!("{}{}", sp, tail);
+            rep.cases += 1;
+            match parse::<Insens<W>>(&s, &[]) {
+                Some((end, node)) => {
+                    rep.nontrivial += 1;
+                    rep.outcome(sp.clone());
+                    if end != sp.len() || node.content != sp {
+                        bad(rep, &format!("Insens<{:?}>", W::CONTENT), &s, format!("content {:?}", sp), format!("content {:?} end {}", node.content, end));
+                    }
+                }
+                None => bad(rep, &format!("Insens<{:?}>", W::CONTENT), &s, "match".into(), "None".into()),
+            }
+        }
+    }
+    // non-ASCII case differences must not match
+    let s = W::CONTENT.replace('é', "É");
+    if s != W::CONTENT {
+        rep.cases += 1;
+        if parse::<Insens<W>>(&s, &[]).is_some() {
+            bad(rep, &format!("Insens<{:?}>", W::CONTENT), &s, "None (ASCII-only insensitivity)".into(), "match".into());
+        }
+    }
+}
+
+pub fn run(o: &Opts) -> Report {
+    let mut rep = Report::default();
+    let chars: Vec<char> = if o.thorough {
+        (0u32..=0x10FFFF).filter_map(char::from_u32).collect()
+    } else {
+        (0u32..0x3000).filter_map(char::from_u32).chain(['\u{FFFF}', '\u{10000}', '😀', '\u{10FFFF}']).collect()
+    };
+    // ranges over the four encoded lengths
+    range::<'a', 'z'>(&mut rep, &chars);
+    range::<'\u{80}', '\u{7ff}'>(&mut rep, &chars);
+    range::<'a', '€'>(&mut rep, &chars);
+    range::<'\u{800}', '\u{10FFFF}'>(&mut rep, &chars);
+    range::<'😀', '😀'>(&mut rep, &chars);
+    range::<'\u{0}', '\u{10FFFF}'>(&mut rep, &chars);
+    // ANY
+    rep.rules += 1;
+    for &c in &chars {
+        let s = format!("{}é", c);
+        rep.cases += 1;
+        match parse::<ANY>(&s, &[]) {
+            Some((end, node)) => {
+                rep.nontrivial += 1;
+                if end != c.len_utf8() || node.content != c {
+                    bad(&mut rep, "ANY", &s, format!("content {:?}", c), format!("content {:?} end {}", node.content, end));
+                }
+            }
+            None => bad(&mut rep, "ANY", &s, "match".into(), "None".into()),
+        }
+    }
+    // Unicode property nodes: the stored character is the consumed one
+    {
+        use pest_typed::predefined_node::unicode as u;
+        macro_rules! prop {
+            ($t:ident) => {
+                rep.rules += 1;
+                let f = pest::unicode::by_name(stringify!($t)).unwrap();
+                for &c in &chars {
+                    let s = format!("{}a", c);
+                    rep.cases += 1;
+                    let r = parse::<u::$t>(&s, &[]);
+                    match r {
+                        Some((end, node)) => {
+                            rep.nontrivial += 1;
+                            if !f(c) || end != c.len_utf8() || node.content != c {
+                                bad(&mut rep, stringify!($t), &s, format!("content {:?}", c), format!("content {:?} end {}", node.content, end));
+                            }
+                        }
+                        None => {
+                            if f(c) {
+                                bad(&mut rep, stringify!($t), &s, "match".into(), "None".into());
+                            }
+                        }
+                    }
+                }
+            };
+        }
+        prop!(LETTER);
+        prop!(UPPERCASE_LETTER);
+        prop!(DECIMAL_NUMBER);
+        prop!(CURRENCY_SYMBOL);
+        prop!(WHITE_SPACE);
+        prop!(HAN);
+        prop!(EMOJI);
+    }
+    // case-insensitive strings: all spellings
+    insens::<Kw>(&mut rep);
+    insens::<Kw2>(&mut rep);
+    // NEWLINE kinds
+    rep.rules += 1;
+    for (s, kind, len) in [("\r\nx", Some(NewLineType::CRLF), 2), ("\nx", Some(NewLineType::LF), 1), ("\r", Some(NewLineType::CR), 1), ("\rx", Some(NewLineType::CR), 1), ("\n\r", Some(NewLineType::LF), 1), ("x\n", None, 0), ("", None, 0)] {
+        rep.cases += 1;
+        let r = parse::<NEWLINE>(s, &[]);
+        let got = r.map(|(e, n)| (e, n.content));
+        let exp = kind.map(|k| (len, k));
+        rep.nontrivial += 1;
+        if got != exp {
+            bad(&mut rep, "NEWLINE", s, format!("{:?}", exp), format!("{:?}", got));
+        }
+    }
+    // PEEK / POP / PEEK_ALL / POP_ALL: span text = text consumed
+    let inputs = enumerate::strings(&['a', 'b', 'é'], if o.thorough { 6 } else { 5 });
+    let stacks: Vec<Vec<&str>> = vec![vec!["a"], vec!["é"], vec!["ab", "é"], vec!["", "b"], vec!["a", "b", "é"], vec![""]];
+    for st in &stacks {
+        for input in &inputs {
+            macro_rules! span_node {
+                ($t:ty, $name:literal, $text:expr) => {
+                    rep.cases += 1;
+                    let exp_text: String = $text;
+                    match parse::<$t>(input, st) {
+                        Some((end, node)) => {
+                            rep.nontrivial += 1;
+                            let consumed = &input[..end];
+                            if consumed != exp_text || node.span.as_str() != consumed {
+                                bad(&mut rep, $name, input, format!("span text {:?}", consumed), format!("span text {:?} (stack {:?})", node.span.as_str(), st));
+                            }
+                        }
+                        None => {
+                            if input.starts_with(&exp_text) {
+                                bad(&mut rep, $name, input, "match".into(), format!("None (stack {:?})", st));
+                            }
+                        }
+                    }
+                };
+            }
+            span_node!(PEEK, "PEEK", st.last().unwrap().to_string());
+            span_node!(POP, "POP", st.last().unwrap().to_string());
+            span_node!(PEEK_ALL, "PEEK_ALL", st.iter().rev().cloned().collect());
+            span_node!(POP_ALL, "POP_ALL", st.iter().rev().cloned().collect());
+        }
+    }
+    rep.rules += 4;
+    // Skip (skip-until) and SkipChar: span text = text consumed
+    let inputs2 = enumerate::strings(&['a', 'b', '€', 'x'], if o.thorough { 6 } else { 5 });
+    for input in &inputs2 {
+        rep.cases += 1;
+        let (end, node) = parse::<Skip<Needles>>(input, &[]).expect("skip-until never fails");
+        let exp_end = (0..=input.len()).filter(|i| input.is_char_boundary(*i)).find(|i| input[*i..].starts_with("€a") || input[*i..].starts_with('b')).unwrap_or(input.len());
+        rep.nontrivial += 1;
+        if end != exp_end || node.span.as_str() != &input[..end] {
+            bad(&mut rep, "Skip<[\"€a\",\"b\"]>", input, format!("end {} text {:?}", exp_end, &input[..exp_end]), format!("end {} text {:?}", end, node.span.as_str()));
+        }
+        rep.cases += 1;
+        let r = parse::<SkipChar<2>>(input, &[]);
+        let exp = input.char_indices().nth(1).map(|(i, c)| i + c.len_utf8());
+        match (r, exp) {
+            (Some((end, node)), Some(e)) if end == e && node.span.as_str() == &input[..e] => {}
+            (None, None) => {}
+            (got, _) => bad(&mut rep, "SkipChar<2>", input, format!("{:?}", exp), format!("{:?}", got.map(|g| g.0))),
+        }
+        rep.cases += 1;
+        // PUSH(x) ~ PEEK through the generic pair: the pushed text is the consumed text
+        if let Some((end, node)) = parse::<(Push<Str<Sa>>, PEEK)>(input, &[]) {
+            if end != 2 || node.1.span.as_str() != "a" {
+                bad(&mut rep, "(Push<\"a\">, PEEK)", input, "PEEK span \"a\"".into(), format!("{:?}", node.1.span.as_str()));
+            }
+        }
+    }
+    rep.rules += 3;
+    if rep.samples.is_empty() {
+        let mut j = J::obj();
+        j.set("node", J::s("Insens<\"abé\">"));
+        j.set("input", J::s("ABéx"));
+        j.set("content", J::s("ABé"));
+        rep.sample(j);
+    }
+    rep
 }
